@@ -36,6 +36,13 @@ let handle cmd =
     str_cost (dtw_model u s1 s2)
   | "wps" -> let u = rd_usettings () in let s1 = rd_series () in let s2 = rd_series () in
     str_matrix (wps_matrix u s1 s2)
+  | "ed" -> let inner = if nint () = 0 then SqEuclid else AbsDiff in
+    let s1 = rd_series () in let s2 = rd_series () in
+    string_of_int (int_of_z (ed_model inner s1 s2))
+  | "lbk" -> let inner = if nint () = 0 then SqEuclid else AbsDiff in let w = opt_z (nint ()) in
+    let n1 = nint () in let s1 = rd_list n1 (fun () -> z_of_int (nint ())) in
+    let n2 = nint () in let s2 = rd_list n2 (fun () -> z_of_int (nint ())) in
+    string_of_int (int_of_z (lb_keogh_model inner w s1 s2))
   | _ -> failwith ("unknown command " ^ cmd)
 
 let () =
